@@ -15,6 +15,9 @@ pub struct Vector {
     /// 0 = as much as the client asks for; n = at most n bytes per read
     #[serde(default)]
     pub chunk: usize,
+    /// sizes of the first reads (at most that many bytes each); later reads follow `chunk`
+    #[serde(default)]
+    pub sizes: Vec<usize>,
 }
 
 pub struct VectorDirector {
@@ -22,11 +25,12 @@ pub struct VectorDirector {
     phase: u32,
     injected: bool,
     idle: u32,
+    reads: usize,
 }
 
 impl VectorDirector {
     pub fn new(v: Vector) -> Self {
-        Self { v, phase: 0, injected: false, idle: 0 }
+        Self { v, phase: 0, injected: false, idle: 0, reads: 0 }
     }
 }
 
@@ -42,6 +46,13 @@ impl Director for VectorDirector {
             return IoDec::Pending;
         }
         let max = want.min(view.inbound_avail);
+        // the CONNACK of a "poll" vector is not part of the pattern
+        if !(self.v.pos == "poll" && view.op == "conn") {
+            self.reads += 1;
+            if let Some(n) = self.v.sizes.get(self.reads - 1) {
+                return IoDec::Ready(max.min((*n).max(1)));
+            }
+        }
         IoDec::Ready(if self.v.chunk == 0 { max } else { max.min(self.v.chunk) })
     }
 
@@ -67,10 +78,10 @@ impl Director for VectorDirector {
         match self.phase {
             1 => TopDec::Call(Step::Conn { healthy: false }),
             2 if view.has_conn && self.v.pos == "poll" => TopDec::Inject(self.v.bytes.clone()),
-            3 | 4 if view.has_conn && self.v.pos == "poll" => TopDec::Call(Step::Poll {}),
+            3..=6 if view.has_conn && self.v.pos == "poll" => TopDec::Call(Step::Poll {}),
             // a handle that survived: one more poll shows it is still alive / dead
             2 if view.has_conn => TopDec::Call(Step::Drive {}),
-            5 if view.has_conn => TopDec::Call(Step::Publish {
+            7 if view.has_conn => TopDec::Call(Step::Publish {
                 qos: 0, topic: b"after".to_vec(), payload: b"x".to_vec(), retain: false, props: vec![],
                 corr: None, payload_fails: false, corr_first: false }),
             _ if view.has_conn => TopDec::DropConn,
